@@ -34,6 +34,14 @@ PROGRAMS = [
     ("abstract-type-annotated", "type T\n    def f(x: Int?) -> Int\n", True),
     ("nested-optional-in-function", "def f(a: Int?) -> Int? => a", True),
     ("no-support-import-needed", "def x := 1\nprint(x)", True),
+    ("docstring-after-first-use", 'def side := 16.0\ndef root := sqrt side\nprint(root)\n\n"""Helpers for optional values."""\n\ndef or_zero(x: Int?) -> Int => x ? 0\n\nprint(or_zero(4))\n', False),
+    ("docstring-after-first-use-annotated", 'def side := 16.0\ndef root := sqrt side\nprint(root)\n\n"""Helpers for optional values."""\n\ndef or_zero(x: Int?) -> Int => x ? 0\n\nprint(or_zero(4))\n', True),
+    ("newtype-then-sqrt", 'type Positive: Int when self > 0\n\ndef or_zero(x: Int?) -> Int => x ? 0\n\ndef hyp(a: Float, b: Float) -> Float => sqrt (a * a + b * b)\n\nprint(or_zero(4))\nprint(hyp(3.0, 4.0))\n', False),
+    ("newtype-then-sqrt-annotated", 'type Positive: Int when self > 0\n\ndef or_zero(x: Int?) -> Int => x ? 0\n\ndef hyp(a: Float, b: Float) -> Float => sqrt (a * a + b * b)\n\nprint(or_zero(4))\nprint(hyp(3.0, 4.0))\n', True),
+    ("optional-then-sqrt", "def x: Int? := None\ndef y := sqrt 16\nprint(y)", True),
+    ("interface-then-sqrt", "type T\n    def f(x: Int) -> Int\ndef y := sqrt 16\nprint(y)", False),
+    ("sqrt-then-optional", "def y := sqrt 16\ndef x: Int? := None\nprint(y)", True),
+    ("leading-docstring-then-sqrt", "\"\"\"Module doc.\"\"\"\ndef y := sqrt 16\nprint(y)", False),
 ]
 
 
@@ -91,7 +99,7 @@ def fam_replay(rp, what, only=None):
     def f(model):
         n, bad = program_family(rp)
         if only:
-            bad = [b for b in bad if any(b["role"].startswith(o) for o in only)]
+            bad = [b for b in bad if any(o in b["role"] for o in only)]
         if bad:
             return {"reproduced": True, "role": f"{what}:{bad[0]['role']}", "detail": f"{bad[0]['src']!r}: {bad[0]['why']}"}
         return {"reproduced": False, "detail": f"{n} emitted modules import what they use, once, at the top"}
